@@ -80,7 +80,7 @@ def cases(draw, ctx, layouts):
         boxes.append(b)
         classes.append(c)
     case = {"file": desc, "by": draw(st.sampled_from(["index", "coord"])), "kind": kind,
-            "boxform": draw(st.sampled_from(["tuple", "tuple", "list", "array", "npint"]))}
+            "boxform": draw(st.sampled_from(["tuple", "tuple", "list", "array", "npint"])), "relative": draw(st.integers(0, 4)) == 0}
     if kind == "invalid":
         which = draw(st.sampled_from(["allnone", 0, 1, 2, "offaxis"]))
         if which == "allnone":
@@ -222,7 +222,8 @@ def run_case(case, ctx):
         from .. import conv
         conv.leave_stale(out, repr(case["box"]) + repr(case["file"]["shape"]))
     out2, box2, exc2 = os.path.join(d, "crop2.sgz"), None, None
-    cropper = SgzCropper(path)
+    # (one cropper in five is created from a path relative to the directory the program is in at that moment)
+    cropper = ops.open_relative(SgzCropper, path) if case.get("relative") else SgzCropper(path)
     try:
         for k, b in enumerate(case.get("before", [])):
             u = case["bu"][k]
